@@ -2,6 +2,7 @@
 # usage: collect_seed.sh <Cnn>  — verifies /tmp/wt-Cnn/mutants/m* and copies verified ones to /verif/seeded/Cnn-mK; removes the worktree.
 set -u
 id="$1"; W=/tmp/wt-$id
+bad=0
 for m in "$W"/mutants/m*; do
   [ -d "$m" ] || continue
   k=$(basename "$m")
@@ -19,7 +20,8 @@ m["demo_file"]="demo_test.go.txt (rename to *_test.go inside demo_dir)"
 json.dump(m,open(sys.argv[2],"w"),indent=1)
 PY
   else
+    bad=$((bad+1))
     echo "$out" | tail -12
   fi
 done
-if [ "${KEEP:-0}" = 0 ] && ! ls /verif/seeded | grep -q "^$id-" ; then echo "nothing verified for $id: worktree kept"; else git -C /repo worktree remove --force "$W" && echo "removed $W"; fi
+if [ "${KEEP:-0}" = 0 ] && [ "$bad" = 0 ]; then git -C /repo worktree remove --force "$W" && echo "removed $W"; else echo "worktree $W kept (bad=$bad)"; fi
